@@ -4,6 +4,8 @@ import (
 	"strings"
 )
 
+func init() { extractors = append(extractors, extractLru) }
+
 // extractLru records, for Put / Get / LoadAndDelete / Len / Size of
 // cache/lru.Cache, whether every access to the shared fields (cache index,
 // list, size counter, evict) lies inside the mutex's critical section and the
